@@ -13,7 +13,7 @@ BFT_NOTE = ("Assumes Byzantine weight <= f, atomic durable writes below EngineIn
 CHECKS = {
  "C01": dict(engine="bftsim", design="DESIGN.md section 5 (C01), section 4 (E1)",
    technique="deterministic simulation with fault injection: seeded search over schedules, network faults, crashes and Byzantine behaviours; global ledger oracle",
-   text="Seeded search over simulated cluster executions of the real replica code (bft::Config::run on a real EngineManager). A global ledger oracle checks after every event that no two correct nodes hand different payloads for one block number to the execution layer, that no node replaces a block (also on its durable chain across restarts), and that no two conflicting commit certificates ever appear in correct nodes' messages or stores. A clean batch is evidence bounded by the reported coverage, not a proof.",
+   text="Seeded search over simulated cluster executions of the real replica code (bft::Config::run on a real EngineManager). A global ledger oracle checks after every event that no two correct nodes hand different payloads for one block number to the execution layer, that no node replaces a block (also on its durable chain across restarts), and that no two conflicting commit certificates ever appear in correct nodes' messages or stores. A clean batch is evidence bounded by the reported coverage, not a proof. Additional populations: 'hidden' (directed: commit votes reach one correct node only, that node is cut off once it alone holds the certificate, the rest time out and continue with a Byzantine validator among them, later the partition heals) and 'node/cluster' (4-6 complete executor::Executor nodes over simulated TCP, agreement over everything any execution layer was handed).",
    note=BFT_NOTE),
  "C02": dict(engine="bftsim", design="DESIGN.md section 5 (C02)",
    technique="deterministic simulation; history-level oracle over correct commit votes + full Byzantine weight (potential certificates)",
@@ -25,27 +25,27 @@ CHECKS = {
    note=BFT_NOTE + " Leader proposals are outside the write-ahead oracle by design (DESIGN section 5, C03)."),
  "C05": dict(engine="bftsim", design="DESIGN.md section 5 (C05)",
    technique="deterministic simulation; per-step replica snapshots (hook H3) checked for monotonicity, justification, certificate genuineness against the signing history, self-justifying output",
-   text="Oracles 1-3 of DESIGN section 5: after every replica step the snapshot shows view and both high certificates never decreasing (and a restart never starting below the durable state), the current view justified by a held certificate, every held or emitted certificate genuine with respect to the run's signing history (not judged by the repo's own verify), and every emitted message verifying in isolation. The lock-step reference model (oracle 4) is not built yet.",
+   text="Oracles 1-3 of DESIGN section 5: after every replica step the snapshot shows view and both high certificates never decreasing (and a restart never starting below the durable state), the current view justified by a held certificate, every held or emitted certificate genuine with respect to the run's signing history (not judged by the repo's own verify), and every emitted message verifying in isolation. The lock-step reference model (oracle 4) is not built yet. Oracle 4: a reference replica written from the informal specification (sim/src/bft/refmodel.rs) makes every step in lock-step with every correct replica and is compared on verdict (which guard rejects), state afterwards, messages sent and vote-cache sizes.",
    note=BFT_NOTE),
  "C06": dict(engine="bftsim", design="DESIGN.md section 5 (C06)",
    technique="deterministic simulation; adversarial prefix then fair synchronous suffix; bounded-liveness oracle in views with correct leaders",
-   text="Bounded liveness: from the state an adversarial prefix (loss, partitions, crashes, Byzantine messages, disk errors) leaves behind, a fair synchronous suffix must make every correct node's durable height grow before 5 views with correct leaders have been entered and left by all correct nodes, and views must never stop advancing for 4.5 timeouts. A stall is a violation with a replayable plan, not a wall-clock timeout.",
+   text="Bounded liveness: from the state an adversarial prefix (loss, partitions, crashes, Byzantine messages, disk errors) leaves behind, a fair synchronous suffix must make every correct node's durable height grow before 5 views with correct leaders have been entered and left by all correct nodes, and views must never stop advancing for 4.5 timeouts. A stall is a violation with a replayable plan, not a wall-clock timeout. End to end: population node/cluster runs 4-6 complete nodes (network + bft + engine manager, executor::Executor) over simulated TCP with connection resets, a stop/restart from durable state and persistence lag; after the last fault every validator's durable chain must grow by 3 blocks within 1200 simulated seconds.",
    note=BFT_NOTE + " Fairness of the suffix is part of the trusted base; L = 5 is calibrated on the unchanged tree then frozen."),
  "C10": dict(engine="bftsim", design="DESIGN.md section 5 (C10)",
    technique="deterministic simulation with a Byzantine adversary sending well-signed absurd messages; panic oracle",
-   text="Message-level half of C10: Byzantine validators send well-signed consensus messages with extreme field values (view/block numbers 0,1,2^64-2,2^64-1, empty and oversized signer sets, oversized payloads, empty certificates) into running clusters; any panic in code under test (outside an already crashed incarnation) is a violation: the harness profile unwinds, a production build aborts.",
+   text="Message-level half of C10: Byzantine validators send well-signed consensus messages with extreme field values (view/block numbers 0,1,2^64-2,2^64-1, empty and oversized signer sets, oversized payloads, empty certificates) into running clusters; any panic in code under test (outside an already crashed incarnation) is a violation: the harness profile unwinds, a production build aborts. Byzantine validators also attach corrupted copies of genuine certificates to well-signed timeouts.",
    note="Decoders as pure functions over all byte strings are not claimed (DESIGN section 6); the byte-stream half is added by the pipe engine."),
  "C08": dict(engine="primsim", design="DESIGN.md section 5 (C08)",
    technique="deterministic simulation of the real EngineManager over a simulated disk with lag / jumps / pruning / restarts and concurrent submitters; reference chain + history oracles",
    text="A genuine certified chain plus invalid variants is submitted concurrently, in and out of order and duplicated, to the real EngineManager while readers call get_block and the simulated persistence layer lags, jumps ahead through a side channel, prunes and is restarted from its durable state. Oracles: only genuine blocks reach the execution layer, in order and without gaps from the durable head; never two blocks for one number; queued/persisted ranges consistent at every step; any number inside queued() reads back the genuine block until pruned; invalid submissions are rejected. The same oracles are active on the manager inside every consensus-cluster run.",
-   note="EngineInterface contract: queue_next_block accepts the block directly after the previously queued one; blocks at or below the durable head are ignored. Peer path (get_block RPC answers) not simulated yet."),
+   note="EngineInterface contract: queue_next_block accepts the block directly after the previously queued one; blocks at or below the durable head are ignored. The peer path (blocks arriving as get_block RPC answers from real nodes, some of them altered) is the node/sync population."),
  "C12": dict(engine="primsim", design="DESIGN.md section 5 (C12)",
    technique="deterministic simulation of whole network nodes over simulated TCP against a handshake adversary (replay, relay, forged signer, wrong chain, outsider, impersonating the dialled peer); ground-truth oracle on who holds which secret; plus the real connection pool under concurrent inserts/removes against a reference set model",
-   text="Handshake half: a real node runs its accept loop, preface, noise and handshake code and dials peers from its address book over a simulated TCP layer; the adversary holds a Byzantine committee key and outsider keys, can listen, dial, hijack an address and record handshakes of a second honest node, and plays one of 14 strategies per run. Whenever an identity appears in one of the victim's four pools the harness demands a live connection in that direction whose far-end actor holds that identity's secret key, committee membership on the validator network, and the inbound quota for unlisted gossip peers. Pool half: concurrent connections race for the same identities and for the quota of unlisted peers on the real PoolWatch; after every step the pool holds at most one entry per key and at most `quota` keys outside the allowed set, every admission decision equals a reference set model, and the quota neither leaks nor over-admits.",
-   note="The adversary cannot forge signatures (ed25519 / BLS assumed unforgeable); address announcements reach the victim's book through the RPC handler's entry point rather than through a gossip connection."),
+   text="Handshake half: a real node runs its accept loop, preface, noise and handshake code and dials peers from its address book over a simulated TCP layer; the adversary holds a Byzantine committee key and outsider keys, can listen, dial, hijack an address and record handshakes of a second honest node, and plays one of 14 strategies per run. Whenever an identity appears in one of the victim's four pools the harness demands a live connection in that direction whose far-end actor holds that identity's secret key, committee membership on the validator network, and the inbound quota for unlisted gossip peers. Pool half: concurrent connections race for the same identities and for the quota of unlisted peers on the real PoolWatch; after every step the pool holds at most one entry per key and at most `quota` keys outside the allowed set, every admission decision equals a reference set model, and the quota neither leaks nor over-admits. Strategies now number 17 (own-identity claim racing the loopback connection, repeated identities on the gossip endpoint, hijack of the victim's own address); oracles: per-connection attribution (the far end of the very connection holding a pool entry must hold the key; hook H4 reports the TCP peer address of inbound entries), at quiescent points at most one admitted connection per identity and every pool entry backed by a connection the node still holds.",
+   note="The adversary cannot forge signatures (ed25519 / BLS assumed unforgeable); address announcements reach the victim's book through its real push_validator_addrs RPC handler (entered by hook H4) rather than through a gossip connection."),
  "C13": dict(engine="pipesim", design="DESIGN.md section 5 (C13)", level="fault_enumeration",
    technique="deterministic simulation of the real noise stream over fragmenting / back-pressuring pipes, plus enumeration of every single-point ciphertext tampering (frame x kind) per base session",
-   text="Benign half (exploration): the real noise::Stream on both ends of a simulated duplex whose every poll is a seeded decision (1-byte reads splitting the length prefix, partial writes, spurious Pending, capacity 1); bytes read must be a prefix of bytes accepted, everything flushed must arrive, EOF exactly at the end after shutdown, no wire frame above 2+65535 bytes. Tamper half (fault enumeration): for each base session a relay applies each of 11 single-point tamperings to each ciphertext frame in turn; the reader must deliver a correct prefix and then fail or reach EOF, never altered, reordered or duplicated plaintext, also on subsequent reads.",
+   text="Benign half (exploration): the real noise::Stream on both ends of a simulated duplex whose every poll is a seeded decision (1-byte reads splitting the length prefix, partial writes, spurious Pending, capacity 1); bytes read must be a prefix of bytes accepted, everything flushed must arrive, EOF exactly at the end after shutdown, no wire frame above 2+65535 bytes. Tamper half (fault enumeration): for each base session a relay applies each of 11 single-point tamperings to each ciphertext frame in turn; the reader must deliver a correct prefix and then fail or reach EOF, never altered, reordered or duplicated plaintext, also on subsequent reads. Backlog mode: many small individually flushed messages pile up before the reader starts (frame sizes random or dividing a number next to the reader's buffer capacity). A session which does not come to rest on a transport that only fragments and delays is a violation.",
    note="Per base run the (frame, kind) space is enumerated completely; positions inside a frame are represented by one byte per kind (length, body, tag). snow and ChaChaPoly are trusted."),
  "C14": dict(engine="pipesim", design="DESIGN.md section 5 (C14)",
    technique="deterministic simulation of two real multiplexers over a fragmenting pipe with generated application workers; pairing / ordering / EOS / stream-limit / buffer-bound oracles",
@@ -61,15 +61,15 @@ CHECKS = {
    note="Half of the programs are purely async (failure atomic at await-point granularity, exact first-failure rule); the other half mix in blocking tasks and blocking scopes, which interleave at the H1 preemption points only."),
  "C18": dict(engine="primsim", design="DESIGN.md section 5 (C18)",
    technique="deterministic simulation: concurrent batch pushes into real address books; reference map model, independent signature re-verification, cross-book convergence",
-   text="2-3 real ValidatorAddrsWatch instances receive the same batches of announcements in different orders from concurrent peer tasks. After every batch the verdict equals the reference model's (all-or-nothing batches, duplicates rejected, outsiders skipped, only strictly newer (version, timestamp) replaces, bad signatures on newer entries reject the batch); at the end every entry is re-verified independently, belongs to the committee, the book equals the model, and books that owe convergence agree.",
+   text="2-3 real ValidatorAddrsWatch instances receive the same batches of announcements in different orders from concurrent peer tasks. After every batch the verdict equals the reference model's (all-or-nothing batches, duplicates rejected, outsiders skipped, only strictly newer (version, timestamp) replaces, bad signatures on newer entries reject the batch); at the end every entry is re-verified independently, belongs to the committee, the book equals the model, and books that owe convergence agree. In-situ population (prim/addrs-node): whole nodes, requests of up to 100 entries (mostly padding by non-members, crafted 'valid, padding, forged' shapes) through the node's real push_validator_addrs RPC handler.",
    note="Announcements are generated with few distinct (version, timestamp) pairs so ties and reversals abound."),
  "C19": dict(engine="primsim", design="DESIGN.md section 5 (C19)",
    technique="deterministic simulation: real fetch queue with requester and peer-worker tasks, failures, cancellations, growing availability; history oracles + fair-suffix progress",
-   text="History oracles over accept/outcome/request events of the real gossip fetch queue: a block is held by at most one peer, handed only to a peer whose announced range contains it, is the lowest outstanding request at some event inside the accept window, is handed out again after a failure, disappears when its request is cancelled; and once every peer announces everything and always succeeds all outstanding requests complete (lost wake-up detector).",
+   text="History oracles over accept/outcome/request events of the real gossip fetch queue: a block is held by at most one peer, handed only to a peer whose announced range contains it, is the lowest outstanding request at some event inside the accept window, is handed out again after a failure, disappears when its request is cancelled; and once every peer announces everything and always succeeds all outstanding requests complete (lost wake-up detector). In-situ population (node/sync): a victim node fetches a certified chain from 1-2 real source nodes over simulated TCP while sources serve altered blocks / fail reads and connections are reset; its store is always a prefix of the genuine chain and complete within 600 simulated seconds after the last fault. Quiescence oracle in the queue population: no idle worker whose peer announced the lowest outstanding request.",
    note="One requester per block number at a time (as the block fetcher does); announced ranges only grow."),
  "C16": dict(engine="bftsim", design="DESIGN.md section 5 (C16)",
    technique="deterministic simulation; sequential reference model of the prunable input channel under concurrent senders; Byzantine floods of future-view votes with cache-size bounds checked on every replica snapshot",
-   text="Channel half: 2-5 sender tasks and the consumer on the real bft::create_input_channel(); every recv result must equal the reference queue's (one entry per sender and kind; strictly higher view replaces and moves to the back; equal/lower dropped; bad signatures dropped; pop front), which also gives bound, freshest-survives and arrival order. Replica half: up to f weight of validators flood validly signed commit/timeout votes for many distinct future views; after every replica step the vote caches (latest-view maps, partial certificates per view) must stay within bounds that depend on the committee size only.",
+   text="Channel half: 2-5 sender tasks and the consumer on the real bft::create_input_channel(); every recv result must equal the reference queue's (one entry per sender and kind; strictly higher view replaces and moves to the back; equal/lower dropped; bad signatures dropped; pop front), which also gives bound, freshest-survives and arrival order. Replica half: up to f weight of validators flood validly signed commit/timeout votes for many distinct future views; after every replica step the vote caches (latest-view maps, partial certificates per view) must stay within bounds that depend on the committee size only. 35% of the channel runs are parallel bursts: senders are simulated OS threads and send() is interleaved at every access to the shared queue (watch shim); the queue must end with one message per (sender, kind), of highest view.",
    note=BFT_NOTE),
 }
 
